@@ -89,7 +89,7 @@ func init() {
 				W:       weights(Weights{"commit": 16, "status": 14, "add": 18, "rm": 6, "restore": 6, "junk": 0}),
 				Oracles: []HistOracle{orC07}, StatusAfterCommit: true}
 		})
-	checks["C08"] = histCheck("C08", []string{"C05.reset_readback", "C08.accepts", "C08.accepts_number", "C08.accepted_shape", "C08.position_agrees", "C08.out_of_range_refused", "C08.mode_table"}, histRule+"; before every reset the `reflog` listing is sampled",
+	checks["C08"] = histCheck("C08", []string{"C05.reset_readback", "C08.accepts", "C08.accepts_number", "C08.accepted_shape", "C08.position_agrees", "C08.out_of_range_refused", "C08.mode_table", "C08.resetCmd_ok", "C08.reset_soft", "C08.reset_refused", "C05.reset_readback"}, histRule+"; before every reset the `reflog` listing is sampled",
 		func(ctx *Ctx) *HistCfg {
 			return &HistCfg{Prop: "C08", Cases: tierN(ctx, 200, 2000), MinSteps: 10, MaxSteps: 35,
 				W:       weights(Weights{"commit": 16, "reset": 14, "switch": 3, "switch-c": 2, "rmdir": 4, "rmfile": 5, "junk": 0}),
